@@ -33,7 +33,10 @@ REQUIRED_THEOREMS = [
     'C06_hetero_transform', 'C06_hetero_transform_counterexample', 'C06_hetero_transform_partial',
     'C06_hetero_transform_legacy_counterexample', 'C06_sample_joint_scored',
     'C06_lognormal_moments', 'C06_truncGauss_moments', 'C06_entry_dim_local',
-    'C06_truncGauss_support_all_dims', 'C06_truncGauss_block_law', 'C06_truncGauss_untruncated_counterexample']
+    'C06_truncGauss_support_all_dims', 'C06_truncGauss_block_law', 'C06_truncGauss_untruncated_counterexample',
+    'C06_composed_delta_support', 'C06_composed_pooled_support', 'C06_composed_hetero_support',
+    'C06_composed_delta_part_zero', 'C06_composed_sampled_pooled_scored', 'C06_composed_sampled_hetero_row',
+    'C06_composed_skip_counterexample']
 RULE = ('exact replay: (a) the four error models and ReducedErrorModel, n_times 1..6, n_samples None/1..5, '
         'int seed and Generator seed (two consecutive calls on one Generator); (b) elementary population '
         'models (Gaussian / LogNormal centred and not, TruncatedGaussian, Pooled, Heterogeneous) n_dim 1..3, '
@@ -44,6 +47,12 @@ RULE = ('exact replay: (a) the four error models and ReducedErrorModel, n_times 
         'every third population case (and the 2- / 3-dimensional distribution checks) with the dimensions '
         'of one model in DIFFERENT scale regimes (location/scale of order 1, 2..9, 10..40; scales of 0.2 '
         'and of 60 side by side; truncation active in one dimension and irrelevant in another). '
+        'The scored density OFF the sampled rows (elementary, covariate, composed, reduced-composed models, '
+        'also the compositions of the distribution checks): the sampled rows with the heterogeneous columns '
+        'set to the modelled individuals (n_ids rows), one entry of a pooled / heterogeneous column moved or '
+        'two heterogeneous individuals swapped, a pooled / heterogeneous parameter (free or fixed) moved, one '
+        'entry of a Gaussian / log-normal / truncated part moved inside and outside its support — chi\'s '
+        'log-likelihood against the documented product density and against the Lean model (C06.pop.score). '
         'non-trivial = n_times>=2 and n_samples>=2 (error models), n_dim>=2 or >=2 sub-models or a '
         'covariate model (population models); distinct = distinct (class, sizes, seed kind)')
 ASSUMPTIONS = [
@@ -427,6 +436,22 @@ class Sub:
     def wire(self):
         return [self.kind, self.n_dim, self.n_cov, [list(p) for p in self.sel]]
 
+    @classmethod
+    def from_wire(cls, chi, wire, n_ids):
+        """the sub-model a recorded description stands for (replay)"""
+        kind, n_dim, n_cov, sel = wire
+        self = object.__new__(cls)
+        self.kind, self.n_dim, self.n_cov, self.n_ids = kind, int(n_dim), int(n_cov), int(n_ids)
+        self.n_pop = per_dim(kind, n_ids) * self.n_dim
+        self.sel = [list(map(int, pr)) for pr in sel]
+        self.obj = build_elem(chi, kind, self.n_dim, n_ids)
+        if self.n_cov > 0:
+            self.obj = chi.CovariatePopulationModel(self.obj, chi.LinearCovariateModel(n_cov=self.n_cov))
+            self.obj.set_population_parameters(self.sel)
+        self.n_top = self.n_pop + self.n_cov * len(self.sel)
+        self.regimes = None
+        return self
+
     def gen_params(self, rng, mixed=False):
         self.regimes = None
         if mixed:
@@ -514,9 +539,20 @@ def documented_psi(subs, ths, eta):
     return out
 
 
+def delta_rows_equal(blk, own):
+    """rows of a point-mass (pooled / heterogeneous) block carry the block's own values. Bare blocks hold
+    copies of the parameters (exact equality); behind a covariate model the own value is `theta + beta.chi`,
+    computed here and in chi by different but equivalent float expressions: equality up to 1e-12 relative
+    (every off-support point the harness builds is off by >= 1e-3 relative)"""
+    blk, own = np.asarray(blk, float), np.asarray(own, float)
+    return bool(np.all(np.abs(blk - own) <= 1e-12 * np.maximum(1.0, np.abs(own))))
+
+
 def documented_joint_logpdf(subs, ths, x):
     """log of the product density the Lean theorems identify as the law of the sampled rows
-    (C06_composed_joint_law and the per-kind law theorems); None when a heterogeneous block is present"""
+    (C06_composed_joint_law and the per-kind law theorems; point masses for pooled / heterogeneous parts:
+    C06_pooled_scored, C06_composed_delta_support), -inf outside the support of a part; None when a
+    heterogeneous block is scored at a number of rows other than its n_ids (no density documented)"""
     x = np.asarray(x, float)
     tot = 0.0
     col = 0
@@ -528,14 +564,21 @@ def documented_joint_logpdf(subs, ths, x):
             elif s.kind in ('Gn', 'Ln'):
                 tot += float(np.sum(stats.norm.logpdf(blk)))
             elif s.kind == 'Lc':
+                if np.any(blk <= 0):
+                    return -math.inf
                 tot += float(np.sum(stats.norm.logpdf(np.log(blk), th[:, 0, :], th[:, 1, :]) - np.log(blk)))
             elif s.kind == 'T':
+                if np.any(blk < 0):
+                    return -math.inf
                 tot += float(np.sum(stats.norm.logpdf(blk, th[:, 0, :], th[:, 1, :])
                                     - np.log(1 - stats.norm.cdf(-th[:, 0, :] / th[:, 1, :]))))
             elif s.kind == 'P':
-                tot += 0.0 if np.all(blk == th[:, 0, :]) else -math.inf
+                tot += 0.0 if delta_rows_equal(blk, th[:, 0, :]) else -math.inf
             else:
-                return None
+                if len(blk) != s.n_ids:
+                    return None
+                own = np.array([th[i, i, :] for i in range(len(blk))])
+                tot += 0.0 if delta_rows_equal(blk, own) else -math.inf
         col += s.n_dim
     return tot
 
@@ -566,6 +609,126 @@ def joint_score_check(ctx, chi, mode, obj, subs, params, params0, cov, cov_rows,
              not isinstance(got, str) and core.close(got, want, rtol=1e-8, atol=1e-9), inp,
              {'samples': as_rows(x), 'chi_log_likelihood_of_the_sampled_rows': got,
               'log_density_of_the_sampled_law': want})
+
+
+def scored_support(ctx, rng, mode, subs, n_ids, params0, cov_rows, xb, inp, score, with_model=True):
+    """the scored density OFF the sampled rows (seeded change C06-14): the log-likelihood of the model the
+    sampler belongs to is the log of the product of the sub-models' densities at EVERY matrix of individuals,
+    in particular it is -inf exactly where the sampler never goes:
+
+    * `own_rows` — the sampled rows, the columns of a heterogeneous part replaced by the modelled
+      individuals' own values in stored order (one of the matrices the sampler returns with positive
+      probability): finite, the sum of the other parts' log-densities;
+    * `delta_entry_moved` — ONE individual's entry in a column of a pooled / heterogeneous part moved off
+      the part's value (or two heterogeneous individuals swapped): -inf;
+    * `delta_parameter_moved` — the same rows scored under another pooled value / another value of one
+      heterogeneous individual (profiling that parameter): -inf;
+    * `entry_moved_inside` / `entry_moved_outside` — one entry of a Gaussian / log-normal / truncated part
+      moved inside the support (the documented log-density at the new point) / to a negative value of a
+      log-normal or truncated part (-inf).
+
+    Reference: the documented densities (`documented_joint_logpdf`) at pristine parameters, never chi's own
+    sub-model scores; correspondence: the Lean model's `composedLL` (`C06.pop.score`; theorems
+    C06_composed_delta_support, C06_composed_delta_part_zero, C06_composed_sampled_pooled_scored).
+    `score(params, rows)` calls chi; `cov_rows` holds one row (broadcast) or one row per row of `xb`."""
+    xb = np.asarray(xb, float)
+    if xb.ndim != 2 or len(xb) == 0 or xb.shape[1] != sum(s.n_dim for s in subs):
+        return
+    has_h = any(s.kind == 'H' for s in subs)
+    if any(s.kind == 'H' and s.n_cov for s in subs):
+        return   # covariate-wrapped heterogeneous model: C07's / C15's concern (as in psi_check)
+    if has_h and len(xb) != n_ids:
+        return
+    m = len(xb)
+    params0 = np.array(params0, float)
+    offs, cols = [], []
+    off = col = 0
+    for s in subs:
+        offs.append(off)
+        cols.append(col)
+        off += s.n_top
+        col += s.n_dim
+    x0 = xb.copy()
+    for s, o, c in zip(subs, offs, cols):
+        if s.kind == 'H':
+            x0[:, c:c + s.n_dim] = params0[o:o + s.n_pop].reshape(n_ids, s.n_dim)
+    points = [('own_rows' if has_h else 'sampled_rows', params0, x0, None)]
+    delta = [j for j, s in enumerate(subs) if s.kind in ('P', 'H')]
+    flt = [j for j, s in enumerate(subs) if s.kind in FLOAT]
+
+    def off_value(v):
+        """a value visibly different from v (>= 1e-3 relative)"""
+        f = float(rng.choice([1e-3, 0.05, 0.3, 1.0]))
+        return v + float(rng.choice([-1, 1])) * f * max(abs(v), 0.1)
+    if delta:
+        j = delta[int(rng.integers(len(delta)))]
+        s, o, c = subs[j], offs[j], cols[j]
+        r, d = int(rng.integers(m)), int(rng.integers(s.n_dim))
+        x1 = x0.copy()
+        how = 'moved'
+        if s.kind == 'H' and m >= 2 and rng.random() < 0.5:
+            r2 = (r + 1 + int(rng.integers(m - 1))) % m
+            if abs(x1[r, c + d] - x1[r2, c + d]) > 1e-3 * max(abs(x1[r, c + d]), 0.1):
+                x1[[r, r2], c + d] = x1[[r2, r], c + d]
+                how = 'swapped with individual %d' % r2
+        if how == 'moved':
+            x1[r, c + d] = off_value(x1[r, c + d])
+        points.append(('delta_entry_moved', params0, x1, {'part': j, 'row': r, 'dim': d, 'how': how}))
+        j = delta[int(rng.integers(len(delta)))]
+        s, o = subs[j], offs[j]
+        k = int(rng.integers(s.n_pop))
+        p1 = params0.copy()
+        p1[o + k] = off_value(p1[o + k])
+        points.append(('delta_parameter_moved', p1, x0, {'part': j, 'parameter': o + k}))
+    if flt:
+        j = flt[int(rng.integers(len(flt)))]
+        s, c = subs[j], cols[j]
+        r, d = int(rng.integers(m)), int(rng.integers(s.n_dim))
+        x2 = x0.copy()
+        v = x2[r, c + d]
+        x2[r, c + d] = v * float(rng.uniform(1.1, 2.0)) if s.kind in ('Lc', 'T') else v + float(rng.uniform(-1, 1))
+        points.append(('entry_moved_inside', params0, x2, {'part': j, 'row': r, 'dim': d}))
+        out = [j for j in flt if subs[j].kind in ('Lc', 'T')]
+        if out:
+            j = out[int(rng.integers(len(out)))]
+            s, c = subs[j], cols[j]
+            r, d = int(rng.integers(m)), int(rng.integers(s.n_dim))
+            x3 = x0.copy()
+            x3[r, c + d] = -abs(x3[r, c + d]) - float(rng.uniform(0.01, 1.0))
+            points.append(('entry_moved_outside', params0, x3, {'part': j, 'row': r, 'dim': d}))
+    wire = [s.wire() for s in subs]
+    for variant, p, xx, what in points:
+        want = documented_joint_logpdf(subs, documented_rows(subs, p, cov_rows, m), xx)
+        if want is None or (isinstance(want, float) and math.isnan(want)):
+            continue
+        got = call(lambda: score(np.array(p, float), xx.copy()))
+        pinp = dict(inp, scored_at=variant, change=what, parameters_scored_with=p, rows_scored=as_rows(xx),
+                    subs=wire, n_ids=n_ids, covariates_of_the_rows=cov_rows, entry_point=mode)
+        ctx.spec('C06.scored_support/%s/%s' % (mode, variant),
+                 not isinstance(got, str) and core.close(got, want, rtol=1e-8, atol=1e-9), pinp,
+                 {'chi_log_likelihood': got, 'log_of_the_product_of_the_sub_model_densities': want})
+        ctx.case('pop/scored_support/' + variant,
+                 nontrivial='pop/scored_support/%s/%s/%s' % (mode, '+'.join(s.kind for s in subs), variant))
+        if with_model:
+            mo = ctx.model('C06.pop.score', mode, wire, n_ids, [float(v) for v in p],
+                           [[float(v) for v in r] for r in cov_rows], as_rows(xx))
+            ctx.agree('C06.pop.score/' + mode, got, mo[0], pinp, rtol=1e-8, atol=1e-9)
+            if len(mo) > 1:
+                ctx.agree('C06.pop.score/sum_of_parts', got, mo[1], pinp, rtol=1e-8, atol=1e-9)
+
+
+def support_case(ctx, chi, rng, mode, obj, subs, n_ids, params0, cov, cov_rows, x, seed, inp):
+    """rows to score for `scored_support`: the sampled rows; with a heterogeneous part (whose density is
+    documented for exactly n_ids individuals) a fresh sample of n_ids rows with covariates of their own"""
+    x = np.asarray(x, float)
+    if any(s.kind == 'H' for s in subs) and len(x) != n_ids:
+        cov, cov_rows = gen_cov(rng, sum(s.n_cov for s in subs), n_ids)
+        x = call(lambda: chi_pop_sample(obj, mode, np.array(params0, float), n_ids, seed, cov))
+        if isinstance(x, str):
+            return
+        inp = dict(inp, rows_scored_from='a second sample of n_ids rows', covariates=cov_rows, n_samples=n_ids)
+    scored_support(ctx, rng, mode, subs, n_ids, params0, cov_rows, x, inp,
+                   lambda p, xx: chi_ll(obj, mode, p, xx, cov, len(xx)))
 
 
 def psi_check(ctx, chi, mode, obj, subs, n_ids, params, params0, cov, cov_rows, eta, inp, label):
@@ -743,6 +906,8 @@ def run_pop_case(ctx, chi, rng, i):
                      {'samples': as_rows(c), 'columns_with_entries_outside_the_support': where})
     psi_check(ctx, chi, mode, obj, subs, n_ids, params, params0, cov, cov_rows, c, inp, mode)
     joint_score_check(ctx, chi, mode, obj, subs, params, params0, cov, cov_rows, c, inp)
+    if cls == 'inside':
+        support_case(ctx, chi, rng, mode, obj, subs, n_ids, params0, cov, cov_rows, c, seed, inp)
     # Generator as seed: advanced, not restarted (two consecutive calls)
     if i % 3 == 0 and cls == 'inside':
         g = np.random.default_rng(seed)
@@ -793,6 +958,23 @@ def run_reduced_pop(ctx, chi, rng):
     ctx.spec('C06.reduced_is_wrapped/ReducedPopulationModel',
              not isinstance(c, str) and not isinstance(d, str) and np.array_equal(c, d), inp)
     ctx.case('pop/reduced', nontrivial='pop/reduced/%s/%s' % ('+'.join(s.kind for s in subs), mask))
+    if isinstance(c, str) or isinstance(filled, str):
+        return
+    # the reduced model scores what the wrapped model scores at the filled-in parameters — at the sampled
+    # rows and off them (a pooled / heterogeneous column moved, a pooled parameter — fixed or free — moved)
+    rows = np.asarray(c, float)
+    if any(s.kind == 'H' for s in subs) and len(rows) != n_ids:
+        rows = call(lambda: red.sample(np.array(free), n_samples=n_ids, seed=seed))
+        if isinstance(rows, str):
+            return
+
+    def red_score(p, xx):
+        if fixed:
+            red.fix_parameters({nm: float(v) for nm, v, b in zip(names, p, mask) if b})
+        return float(red.compute_log_likelihood(np.array([float(v) for v, b in zip(p, mask) if not b]), xx))
+    scored_support(ctx, rng, 'composed', subs, n_ids, np.array(full, float), [], rows, inp, red_score)
+    if fixed:
+        red.fix_parameters(fixed)
 
 
 # ----------------------------------------------------------------------------------------
@@ -1256,6 +1438,10 @@ def composed_law_one(ctx, chi, rng, n, rep):
             ctx.spec('C06.joint_score_of_samples/Composed', core.close(got, want, rtol=1e-8, atol=1e-9),
                      dict(inp, rows=m), {'samples': as_rows(x[:m]), 'chi_log_likelihood_of_the_sampled_rows': got,
                                          'log_density_of_the_sampled_law': want})
+    # the scored density off the sampled rows (pooled / heterogeneous columns and parameters moved, entries
+    # moved inside / outside the support of the other parts)
+    scored_support(ctx, rng, 'composed', subs, n_ids, params0, cov_rows[:n_ids], x[:n_ids], inp,
+                   lambda p, xx: chi_ll(obj, 'composed', p, xx, None if cov is None else cov[:n_ids], len(xx)))
     # non-centred sub-models: the model's own transform of the sampled eta (same parameter array)
     # against the law of the centred model with the given (covariate-shifted) parameters
     if any(s.kind in ('Gn', 'Ln') for s in subs):
@@ -1403,6 +1589,35 @@ def replay(ctx, data):
     print('tag   :', tag)
     print('input :', json.dumps(inp)[:1500])
     print('detail:', json.dumps(bad.get('detail'))[:1500])
+    if tag.startswith('C06.scored_support/'):
+        n_ids = int(inp['n_ids'])
+        subs = [Sub.from_wire(chi, w, n_ids) for w in inp['subs']]
+        mode = inp['entry_point']
+        if mode == 'composed':
+            obj = chi.ComposedPopulationModel([sm.obj for sm in subs])
+            obj.set_n_ids(n_ids)
+        else:
+            obj = subs[0].obj
+        p = np.array(inp['parameters_scored_with'], float)
+        xx = np.array(inp['rows_scored'], float)
+        cov_rows = inp.get('covariates_of_the_rows') or []
+        cov = np.array(cov_rows, float) if cov_rows else None
+        if inp.get('model') == 'ReducedPopulationModel':
+            red = chi.ReducedPopulationModel(obj)
+            mask = inp['mask']
+            fixed = {nm: float(v) for nm, v, b in zip(red.get_parameter_names(), p, mask) if b}
+            if fixed:
+                red.fix_parameters(fixed)
+            got = call(lambda: float(red.compute_log_likelihood(
+                np.array([float(v) for v, b in zip(p, mask) if not b]), xx)))
+        else:
+            got = call(lambda: chi_ll(obj, mode, p, xx, cov, len(xx)))
+        want = documented_joint_logpdf(subs, documented_rows(subs, p, cov_rows, len(xx)), xx)
+        print('chi   : compute_log_likelihood of the recorded rows at the recorded parameters:', got)
+        print('spec  : log of the product of the sub-model densities there            :', want)
+        ok = not isinstance(got, str) and core.close(got, want, rtol=1e-8, atol=1e-9)
+        print('the scored density %s the product density on this tree' % ('IS' if ok else 'IS NOT'))
+        return 0 if ok else 1
     model = inp.get('model', '')
     rev = {v: k for k, v in EM_TAG.items()}
     revp = {v: k for k, v in POP_TAG.items()}
